@@ -31,7 +31,10 @@
 (*   [k|->"map",f,a]  [k|->"zipmap",f,a,b]  [k|->"add",a,b]  [k|->"mul",   *)
 (*   a,b]  [k|->"scale",g,a]  [k|->"offset",o,a]  [k|->"scalepc",gs,a]     *)
 (*   [k|->"offsetpc",os,a]  [k|->"clip",th,a]  [k|->"inspect",a]           *)
-(*   [k|->"delay",n,a]                                                     *)
+(*   [k|->"delay",n,a]   [k|->"delaymax",m,a] = delay(usize::MAX - m)      *)
+(*   [k|->"opq",j]  an OPAQUE source (oscillator, noise, ...): its frames  *)
+(*   are not computed here; source j has kind "opaque" and xs = the frames *)
+(*   an identically built twin delivered (recorded by the harness)         *)
 (* SORTS  a term has a sample format f (a string of SampleFormats.tla) and *)
 (* the execution a channel count ch.  `add`'s second operand lives at      *)
 (* SignedOf(f), `mul`'s at FloatOf(f) (the associated types of Sample).    *)
@@ -148,10 +151,15 @@ ZipDefined(fn, f, x, y) == fn = "addamp" => \A c \in 1..Len(x) : SAddDefined(f, 
 ---------------------------------------------------------------------------
 (* term structure *)
 
-LeafSrc == {"src", "srcs", "byref"}
+LeafSrc == {"src", "srcs", "byref", "opq"}
 Leaf0   == {"eq", "gen", "genmut"}
 Unary   == {"map", "scale", "offset", "scalepc", "offsetpc", "clip", "inspect", "delay"}
 Binary  == {"zipmap", "add", "mul"}
+\* delay(k): k leading equilibrium frames.  `delaymax` is delay(usize::MAX - m), the far end of the
+\* parameter range: more leading frames than any execution observes (every execution makes fewer
+\* than Inf calls), so all observed frames are silence and no source below it is ever pulled
+IsDelay(t) == t.k \in {"delay", "delaymax"}
+DN(t) == IF t.k = "delay" THEN t.n ELSE Inf
 
 \* sample format of the operands, given the format f of the node itself
 FmtA(t, f) == IF t.k = "map" THEN MapArgFmt(t.f, f) ELSE f
@@ -182,9 +190,27 @@ LeafInfo(t, f) == IF t.k \in LeafSrc THEN {<< t.j, t.k, f >>} ELSE IF t.k \in Le
 FramesOf(src, ch) ==
   IF src.kind = "frames" THEN src.xs
   ELSE [i \in 1..(Len(src.xs) \div ch) |-> [c \in 1..ch |-> src.xs[(i - 1) * ch + c]]]
-SrcLen(X, j) == IF X.srcs[j].kind = "frames" THEN Len(X.srcs[j].xs) ELSE Len(X.srcs[j].xs) \div X.ch
+\* (an opaque source -- oscillator, noise -- never ends; xs holds the frames of its twin that were recorded)
+SrcLen(X, j) == IF X.srcs[j].kind = "frames" THEN Len(X.srcs[j].xs)
+                ELSE IF X.srcs[j].kind = "opaque" THEN Inf ELSE Len(X.srcs[j].xs) \div X.ch
 \* i-th frame delivered by source j (i >= 1): its frames, then equilibrium for ever
-SrcDen(X, j, f, i) == IF i <= SrcLen(X, j) THEN FramesOf(X.srcs[j], X.ch)[i] ELSE EqFrame(f, X.ch)
+SrcDen(X, j, f, i) == IF X.srcs[j].kind = "opaque"         \* (past the recorded frames: not judged, Trace_Signals!TwinOK)
+                        THEN (IF i <= Len(X.srcs[j].xs) THEN X.srcs[j].xs[i] ELSE EqFrame(f, X.ch))
+                      ELSE IF i <= SrcLen(X, j) THEN FramesOf(X.srcs[j], X.ch)[i] ELSE EqFrame(f, X.ch)
+
+\* STATIC DISPATCH.  A term can be built with its RECEIVER CHAIN -- the root and its first-operand
+\* descendants, st levels deep -- as one concretely typed stack (every adaptor method called on the
+\* concrete type of the level below, not on a boxed signal); the second operand of a combiner is an
+\* argument, not a receiver.  The meaning of the term is the same (C04: "any nesting of these adaptors
+\* equals the composition of their pointwise functions" holds however the nesting is typed).  The only
+\* observable difference: a `src` / `srcs` leaf inside the static region is the bare source type, no
+\* instrumented wrapper counts its next() calls (its counter stays 0); an opaque source never has one.
+RECURSIVE RawSrcs(_, _)
+RawSrcs(t, st) == IF t.k = "opq" THEN {t.j}
+                  ELSE IF t.k \in {"src", "srcs"} THEN (IF st > 0 THEN {t.j} ELSE {})
+                  ELSE IF t.k \in LeafSrc \cup Leaf0 THEN {}
+                  ELSE IF t.k \in Binary THEN RawSrcs(t.a, st - 1) \cup RawSrcs(t.b, 0)
+                  ELSE RawSrcs(t.a, st - 1)
 
 ---------------------------------------------------------------------------
 (* LAYER 1: denotation *)
@@ -207,7 +233,7 @@ Den(X, t, f, n) ==
     [] t.k = "offsetpc"-> LET x == Den(X, t.a, f, n) IN [c \in 1..X.ch |-> SAddAmp(f, x[c], t.os[c])]
     [] t.k = "clip"    -> LET x == Den(X, t.a, f, n) IN [c \in 1..X.ch |-> SClip(f, x[c], t.th)]
     [] t.k = "inspect" -> Den(X, t.a, f, n)
-    [] t.k = "delay"   -> IF n <= t.n THEN EqFrame(f, X.ch) ELSE Den(X, t.a, f, n - t.n)
+    [] IsDelay(t)      -> IF n <= DN(t) THEN EqFrame(f, X.ch) ELSE Den(X, t.a, f, n - DN(t))
 
 \* is output n inside the domain on which C03 defines the frame operations?  (integer offsets
 \* must not overflow, float -> integer conversion wants [-1, 1)).  Only evaluated when a
@@ -233,7 +259,7 @@ DenDefined(X, t, f, n) ==
                           /\ LET x == Den(X, t.a, f, n) IN \A c \in 1..X.ch : SMulDefined(f, x[c], t.gs[c])
     [] t.k = "offsetpc"-> /\ DenDefined(X, t.a, f, n)
                           /\ LET x == Den(X, t.a, f, n) IN \A c \in 1..X.ch : SAddDefined(f, x[c], t.os[c])
-    [] t.k = "delay"   -> n <= t.n \/ DenDefined(X, t.a, f, n - t.n)
+    [] IsDelay(t)      -> n <= DN(t) \/ DenDefined(X, t.a, f, n - DN(t))
     [] OTHER           -> DenDefined(X, t.a, f, n)
 
 \* outputs before the term reports exhaustion
@@ -242,7 +268,7 @@ DLen(X, t) ==
   CASE t.k \in LeafSrc -> SrcLen(X, t.j)
     [] t.k \in Leaf0   -> Inf
     [] t.k \in Binary  -> MinI(DLen(X, t.a), DLen(X, t.b))
-    [] t.k = "delay"   -> LET d == DLen(X, t.a) IN IF d >= Inf THEN Inf ELSE d + t.n
+    [] IsDelay(t)      -> MinI(Inf, DLen(X, t.a) + DN(t))
     [] OTHER           -> DLen(X, t.a)
 ExhDen(X, t, n) == n >= DLen(X, t)             \* is_exhausted after n outputs
 
@@ -252,14 +278,14 @@ Pulls(t, j, n) ==
   CASE t.k \in LeafSrc -> IF t.j = j THEN n ELSE 0
     [] t.k \in Leaf0   -> 0
     [] t.k \in Binary  -> Pulls(t.a, j, n) + Pulls(t.b, j, n)
-    [] t.k = "delay"   -> Pulls(t.a, j, MaxI(0, n - t.n))
+    [] IsDelay(t)      -> Pulls(t.a, j, MaxI(0, n - DN(t)))
     [] OTHER           -> Pulls(t.a, j, n)
 \* is source j (occurring in t) shielded by a delay that is still silent while t emits output n
 RECURSIVE Silent(_, _, _)
 Silent(t, j, n) ==
   CASE t.k \in LeafSrc \cup Leaf0 -> FALSE
     [] t.k \in Binary  -> IF j \in SrcsOf(t.a) THEN Silent(t.a, j, n) ELSE Silent(t.b, j, n)
-    [] t.k = "delay"   -> n <= t.n \/ Silent(t.a, j, n - t.n)
+    [] IsDelay(t)      -> n <= DN(t) \/ Silent(t.a, j, n - DN(t))
     [] OTHER           -> Silent(t.a, j, n)
 
 \* the frames seen by the `inspect` closures while t computes output n: {<<path, frame>>};
@@ -269,7 +295,7 @@ InspDen(X, t, f, p, n) ==
   CASE t.k \in LeafSrc \cup Leaf0 -> {}
     [] t.k \in Binary  -> InspDen(X, t.a, FmtA(t, f), p \o "a", n) \cup InspDen(X, t.b, FmtB(t, f), p \o "b", n)
     [] t.k = "inspect" -> InspDen(X, t.a, f, p \o "a", n) \cup {<< p, Den(X, t.a, f, n) >>}
-    [] t.k = "delay"   -> IF n <= t.n THEN {} ELSE InspDen(X, t.a, f, p \o "a", n - t.n)
+    [] IsDelay(t)      -> IF n <= DN(t) THEN {} ELSE InspDen(X, t.a, f, p \o "a", n - DN(t))
     [] OTHER           -> InspDen(X, t.a, FmtA(t, f), p \o "a", n)
 
 \* consumers, started after n0 outputs
@@ -311,7 +337,7 @@ PoolInit(X) == [j \in 1..Len(X.srcs) |-> SrcInit(X.srcs[j], X.ch)]
 RECURSIVE NsInit(_)
 NsInit(t) == CASE t.k \in LeafSrc \cup {"eq", "gen"} -> [z |-> 0]
                [] t.k = "genmut" -> [i |-> 0]
-               [] t.k = "delay"  -> [n |-> t.n, a |-> NsInit(t.a)]
+               [] IsDelay(t)     -> [n |-> DN(t), a |-> NsInit(t.a)]
                [] t.k \in Binary -> [a |-> NsInit(t.a), b |-> NsInit(t.b)]
                [] OTHER          -> [a |-> NsInit(t.a)]
 
@@ -331,7 +357,7 @@ Step(X, t, f, p, ns, pool) ==
                      [] t.k = "add" -> [c \in 1..X.ch |-> SAddAmp(f, ra.out[c], rb.out[c])]
                      [] t.k = "mul" -> [c \in 1..X.ch |-> SMulAmp(f, ra.out[c], rb.out[c])]
          IN [out |-> o, ns |-> [a |-> ra.ns, b |-> rb.ns], pool |-> rb.pool, insp |-> ra.insp \cup rb.insp]
-    [] t.k = "delay"  ->            \* if self.n_frames > 0 { self.n_frames -= 1; EQUILIBRIUM } else { self.signal.next() }
+    [] IsDelay(t)     ->            \* if self.n_frames > 0 { self.n_frames -= 1; EQUILIBRIUM } else { self.signal.next() }
          IF ns.n > 0 THEN [out |-> EqFrame(f, X.ch), ns |-> [ns EXCEPT !.n = @ - 1], pool |-> pool, insp |-> {}]
          ELSE LET r == Step(X, t.a, f, p \o "a", ns.a, pool)
               IN [out |-> r.out, ns |-> [ns EXCEPT !.a = r.ns], pool |-> r.pool, insp |-> r.insp]
@@ -354,7 +380,7 @@ Exh(t, ns, pool) ==
   CASE t.k \in LeafSrc -> ~pool[t.j].some              \* self.next.is_none()
     [] t.k \in Leaf0   -> FALSE                        \* the trait's default
     [] t.k \in Binary  -> Exh(t.a, ns.a, pool) \/ Exh(t.b, ns.b, pool)
-    [] t.k = "delay"   -> ns.n = 0 /\ Exh(t.a, ns.a, pool)
+    [] IsDelay(t)      -> ns.n = 0 /\ Exh(t.a, ns.a, pool)
     [] OTHER           -> Exh(t.a, ns.a, pool)
 
 \* UntilExhausted::next on the state (ns, pool): [some, v, k = root next() calls made, ns, pool]
